@@ -45,8 +45,10 @@ def judge(prod, spec, rpc, use_cache, intact_events, what):
         tree = prod.open(records_per_chunk=rpc, use_cache=use_cache)
     except BaseException as e:
         n = len(vfs.LOG)
-        if intact_events is not None and n > intact_events:
-            return "raises", {"sig": {"kind": "not-prompt"}, "detail": f"{what}: failing open issued {n} filesystem events > intact open {intact_events}"}
+        # "terminates promptly": the failing open stays within a small multiple of the work of an intact open (a re-read of the
+        # short tail, a size probe or one retry are fine; a loop at the end of the file is not)
+        if intact_events is not None and n > 2 * intact_events + 16:
+            return "raises", {"sig": {"kind": "not-prompt"}, "detail": f"{what}: failing open issued {n} filesystem events, an intact open {intact_events}"}
         return f"raises:{type(e).__name__}", None
     # returned: every image must have its declared shape fully loadable and correct
     for i, im in enumerate(spec["images"]):
